@@ -2,6 +2,8 @@ import Complgen.Model.Hex
 import Complgen.Model.Quote
 import Complgen.Model.Pipeline
 import Complgen.Cert.Search
+import Complgen.Cert.Canon
+import Complgen.Spec.Den
 import Complgen.Gen.Chains
 import Complgen.Gen.Tables
 
@@ -30,36 +32,9 @@ def parseKAuto (s : String) : Option Cert.KAuto :=
     some { start, acc, trans }
   | _ => none
 
-def KAuto.wire (a : Cert.KAuto) : String :=
-  s!"{a.start};{",".intercalate (a.acc.map toString)};{"~".intercalate (a.trans.map fun t => s!"{t.1},{t.2.1},{t.2.2}")}"
+open Complgen.Cert (canonK sortStrings hashKey)
 
-def sortStrings (l : List String) : List String :=
-  l.foldl (fun acc x => let (b, a) := acc.span (· ≤ x); b ++ [x] ++ a) []
-
-/-- canonical form of the language of a keyed automaton: minimise, renumber breadth-first with keys
-in sorted order. -/
-def canonK (a : Cert.KAuto) : Option Cert.KAuto :=
-  let keys := sortStrings (a.trans.map (·.2.1)).eraseDups
-  -- states of the model minimiser start at 1 (0 is the dead state)
-  let sh := fun (q : Nat) => q + 1
-  let au : Auto := { start := sh a.start, acc := a.acc.map sh,
-                     trans := a.trans.map fun t => (sh t.1, (keys.idxOf? t.2.1).getD 0, sh t.2.2),
-                     inputs := keys.map fun _ => Inp.star }
-  match Min.minimize fifo au with
-  | none => none
-  | some m =>
-    let rec bfs : Nat → List Nat → List Nat → List Nat
-      | 0, _, order => order
-      | _ + 1, [], order => order
-      | fuel + 1, q :: rest, order =>
-        let nexts := (List.range keys.length).filterMap fun i => m.step q i
-        let new := nexts.foldl (fun acc x => if order.contains x || acc.contains x then acc else acc ++ [x]) []
-        bfs fuel (rest ++ new) (order ++ new)
-    let order := bfs (m.states.length + 2) [m.start] [m.start]
-    let new := fun q => (order.idxOf? q).getD 0
-    let trans := order.flatMap fun q => (List.range keys.length).filterMap fun i =>
-      (m.step q i).map fun t => (new q, keys[i]!, new t)
-    some { start := 0, acc := normSet (m.acc.map new), trans }
+def KAuto.wire (a : Cert.KAuto) : String := a.wire
 
 def keyOfInp (subKey : Nat → String) : Inp → String
   | .lit t d l => s!"L:{Hex.encode t}:{Hex.encodeOpt d}:{l}"
@@ -71,8 +46,6 @@ def keyOfInp (subKey : Nat → String) : Inp → String
 def kautoOf (subKey : Nat → String) (a : Auto) : Cert.KAuto :=
   { start := a.start, acc := a.acc,
     trans := a.trans.map fun t => (t.1, keyOfInp subKey (a.inputs[t.2.1]?.getD .star), t.2.2) }
-
-def hashKey (s : String) : String := toString (hash s)
 
 /-- key of the k-th within-word automaton: the hash of the canonical form of its language, plus the
 number of earlier pool entries with the same language (language-equal automata that were interned
@@ -142,6 +115,13 @@ def handle (line : String) : String :=
         s!"raw {KAuto.wire (kautoOf sk c.raw.main)} ## min {KAuto.wire (kautoOf sk c.min.main)}" ++
           String.join (c.min.subs.map fun a => " ## sub " ++ KAuto.wire (kautoOf sk a)))
         (Pipeline.compile fifo g sh)
+    | _, _ => "bad-op"
+  | "spec" :: sh :: rest =>
+    match shellOf sh, readGrammar (" ".intercalate rest) with
+    | some sh, some g =>
+      let m := Spec.meaning g sh
+      let a := (Spec.toSRx Spec.wordKey m).toKAuto
+      s!"ok {KAuto.wire a} ## {m.text.trimAsciiEnd.toString} ## {" ".intercalate ((Spec.wordsOf m).map Spec.wordKey)}"
     | _, _ => "bad-op"
   | ["canon", a] =>
     match parseKAuto a with
